@@ -393,14 +393,54 @@ async def tee_peer(
                             peer_buffer.append(item)
             yield buffer.popleft()
     finally:
-        # this peer is done – remove its buffer
-        for idx, peer_buffer in enumerate(peers):  # pragma: no branch
-            if peer_buffer is buffer:
-                peers.pop(idx)
-                break
-        # if we are the last peer, try and close the iterator
-        if not peers and isinstance(iterator, ACloseable):
-            await iterator.aclose()
+        await _tee_peer_done(iterator, buffer, peers)
+
+
+async def _tee_peer_done(
+    iterator: AsyncIterator[T], buffer: Deque[T], peers: List[Deque[T]]
+) -> None:
+    """Clean up after a peer that is done; safe to run more than once"""
+    # this peer is done – remove its buffer
+    for idx, peer_buffer in enumerate(peers):
+        if peer_buffer is buffer:
+            peers.pop(idx)
+            break
+    else:
+        return
+    # nobody is going to read what is left in the buffer
+    buffer.clear()
+    # if we are the last peer, try and close the iterator
+    if not peers and isinstance(iterator, ACloseable):
+        await iterator.aclose()
+
+
+class _TeePeer(AsyncIterator[T]):
+    """
+    Child iterator of a :py:func:`~.tee` that can be closed before it is advanced
+
+    An async generator that was never started does not run its ``finally`` clause
+    when it is closed. A child closed that early would keep its buffer – and
+    thereby the source iterator – alive forever.
+    """
+
+    __slots__ = ("_peer", "_cleanup_args")
+
+    def __init__(
+        self,
+        iterator: AsyncIterator[T],
+        buffer: Deque[T],
+        peers: List[Deque[T]],
+        lock: AsyncContextManager[Any],
+    ):
+        self._peer = tee_peer(iterator, buffer, peers, lock)
+        self._cleanup_args = (iterator, buffer, peers)
+
+    def __anext__(self) -> Awaitable[T]:
+        return self._peer.__anext__()
+
+    async def aclose(self) -> None:
+        await self._peer.aclose()
+        await _tee_peer_done(*self._cleanup_args)
 
 
 @public_module(__name__, "tee")
@@ -454,7 +494,7 @@ class Tee(Generic[T]):
         self._iterator = aiter(iterable)
         self._buffers: List[Deque[T]] = [deque() for _ in range(n)]
         self._children = tuple(
-            tee_peer(
+            _TeePeer(
                 iterator=self._iterator,
                 buffer=buffer,
                 peers=self._buffers,
